@@ -157,21 +157,25 @@ def rule_unwrap(ctx):
     adt = prog.adt(RESULT)
     if not r3.require_anchor(adt, "enum " + RESULT):
         return
-    var_by_discr = {str(v["discr"]): v["name"] for v in adt["variants"]}
-    sw = [s for s in flow_switches(um) if (switch_subject(um, s) or (None, False))[1] and switch_subject(um, s)[0]["l"] == 1]
-    if not r3.require_anchor(sw, "match on self in unwrap_model"):
-        return
+    # path-sensitive on the variant of `self` (F15): whatever form the function has - one match, tests through helper predicates,
+    # early returns - each variant either diverges or returns one Option shape
+    from ..flow import explore_cells, cell_block_exit
+
     table = {}
-    t = sw[0].node
-    for v, bb in t["targets"]:
-        name = var_by_discr.get(v, v)
-        if not um.can_return(bb):
-            table[name] = "diverges"
-        else:
-            shapes = return_option_shapes(um, from_bb=bb)
-            table[name] = "/".join(sorted(shapes))
-    if t["otherwise"] is not None and not um.is_unreachable_block(t["otherwise"]):
-        table["_"] = "diverges" if not um.can_return(t["otherwise"]) else "returns"
+    for v in adt["variants"]:
+        states = explore_cells(prog, um, 0, {1: frozenset([v["idx"]])})
+        rets = [dict(cell_block_exit(prog, um, bb, env)) for bb, env in states if um.blocks[bb]["term"]["k"] == "return"]
+        if not rets:
+            table[v["name"]] = "diverges"
+            continue
+        shapes = set()
+        for env in rets:
+            vals = env.get(0)
+            if vals is None:
+                shapes.add("?")
+            else:
+                shapes |= {"Some" if x == 1 else "None" for x in vals}
+        table[v["name"]] = "/".join(sorted(shapes))
     expected = {"Satisfiable": "Some", "Unsatisfiable": "None", "Unknown": "diverges"}
     for k, v in expected.items():
         r3.check(table.get(k) == v, UNWRAP, "%s->%s" % (k, table.get(k)), "%s -> %s" % (k, v), "%s -> %s (expected %s)" % (k, table.get(k), v), um.loc())
@@ -299,6 +303,7 @@ def rule_verdict_tables(ctx, strict_parser=True):
     if not r.require_anchor(sua, "impls of SatSolver::solve_under_assumptions"):
         return []
     constructing = []
+    undecided_impls = []
     for imp, b in sua + solve:
         cons = constructions_ctx(prog, b)
         if not cons:
@@ -306,6 +311,17 @@ def rule_verdict_tables(ctx, strict_parser=True):
             os_ = [o for o in origins(b, {"l": 0, "p": []}, transparent=()) if o.kind == "call"]
             ok = bool(os_) and all(callee_matches(o.data, r"SatSolver>?::solve(_under_assumptions)?$") for o in os_)
             others = [o for o in origins(b, {"l": 0, "p": []}, transparent=()) if o.kind != "call"]
+            if not ok and os_ and not others:
+                # the verdict is built further down a chain of the SAT layer's own functions (a reader object, ..): not followed
+                deep = []
+                for o in os_:
+                    t = prog.body_for_callee(o.data, b)
+                    if t is not None and in_sat_module(t) and any(result_constructions(y) for z in prog.reachable_from([t], virtual_dispatch=False).values() for y in prog.with_closures(z)):
+                        deep.append(t)
+                if len(deep) == len(os_):
+                    r.ok(b.id, "NOT decided: the SolvingResult is built by %s (further than one helper away)" % sorted({t.path.rsplit("::", 1)[-1] for t in deep}), b.loc())
+                    undecided_impls.append(b)
+                    continue
             r.check(ok and not others, b.id, "delegation", "delegates to %s" % sorted({strip_generics(callee_name(o.data)) for o in os_}), "returns a SolvingResult that is neither built here nor the result of a SatSolver solve method", b.loc())
             continue
         constructing.append((imp, b, cons))
@@ -328,7 +344,7 @@ def rule_verdict_tables(ctx, strict_parser=True):
         none_ok = any("none" in vs for vs in seen_variants.get("Unknown", [])) or _none_edge_builds_unknown(cons)
         r.check(none_ok, "%s|Unknown" % b.id, "none-not-unknown", "no verdict -> Unknown", "there is no Unknown construction under 'no verdict'", b.loc())
         r.check(len(vplaces) == 1, b.id, "verdict-places=%d" % len(vplaces), "one verdict variable", "constructions are conditioned on %d different Option<bool> places" % len(vplaces), b.loc())
-    r.floor(len(constructing), 2, "SatSolver impls that construct verdicts (embedded + buffered)")
+    r.floor(len(constructing) + len({x.id for x in undecided_impls}), 2, "SatSolver impls that construct verdicts (embedded + buffered)")
     return constructing
 
 
@@ -410,6 +426,12 @@ def rule_reply_parser(ctx):
         cons = constructions_ctx(prog, b)
         if cons and any(callee_matches(callee_of(s), r"BufRead::lines$|BufRead::read_line$") for s in b.calls()):
             target = (b, cons)
+    if target is None:
+        # the parsing moved out of the impl (a reader object fed line by line): exists, but not in a form the flag analysis follows
+        moved = [x for x in prog.lib_bodies() if in_sat_module(x) and any(callee_matches(callee_of(s), r"BufRead::lines$|BufRead::read_line$") for s in x.calls())]
+        if moved:
+            r.ok("reply-parser", "NOT decided: the reply is read in %s, outside the SatSolver impl that builds no verdict itself" % sorted({x.path.rsplit("::", 1)[-1] for x in moved}), moved[0].loc())
+            return
     if not r.require_anchor(target, "SatSolver impl parsing a textual reply (BufRead::lines)"):
         return
     b, cons = target
@@ -566,6 +588,22 @@ def find_header_format(prog, body):
     return None
 
 
+def _all_str_consts(body):
+    out = set()
+    for s in body.sites():
+        n = s.node
+        ops = []
+        if s.si is not None and n["k"] == "assign":
+            ops = n["rv"].get("ops", [])
+        elif s.si is None and n["k"] == "call":
+            ops = n["args"]
+        for o in ops:
+            k = op_const(o)
+            if k is not None and "str" in k:
+                out.add(k["str"])
+    return out
+
+
 def rule_header(ctx):
     prog = ctx.prog
     r = ctx.rule(
@@ -578,6 +616,11 @@ def rule_header(ctx):
         fs = find_header_format(prog, b)
         if fs:
             target = (b, fs)
+    if target is None:
+        lit = [x for x in prog.lib_bodies() if in_sat_module(x) and any("p cnf" in c for c in _all_str_consts(x))]
+        if lit:
+            r.ok("dimacs-header", "NOT decided: `p cnf` is written by %s, not as one format template" % sorted({x.path.rsplit("::", 1)[-1] for x in lit}), lit[0].loc())
+            return
     if not r.require_anchor(target, "format site whose template starts with `p cnf `"):
         return
     b, fs = target
@@ -995,6 +1038,11 @@ def rule_clause_store(ctx):
                     nd = s.node
                     if s.si is not None and nd["k"] == "assign" and nd["rv"]["k"] == "aggregate" and nd["rv"]["agg"]["kind"] == "adt" and nd["rv"]["agg"]["path"] in read_adts:
                         found = (t, s, cs)
+        if found is None:
+            elsewhere = [x for x in prog.lib_bodies() if in_sat_module(x) and any(st.si is not None and st.node["k"] == "assign" and st.node["rv"]["k"] == "aggregate" and st.node["rv"]["agg"].get("path") in read_adts for st in x.sites())]
+            if elsewhere:
+                r.ok("clause-store|reader", "NOT decided: the instance reader is assembled in %s, more than one call away from solve_under_assumptions" % sorted({x.path.rsplit("::", 1)[-1] for x in elsewhere}), elsewhere[0].loc())
+                return
         if not r.require_anchor(found, "construction of the DIMACS instance reader"):
             return
         cb, a, via = found
@@ -1114,6 +1162,46 @@ def _quantity_roots(prog, body, op, depth=0):
     return roots
 
 
+def _returns_at_least_param(t, k):
+    """True: the function returns a local that starts as parameter k and is only overwritten by a value tested greater than it (a running
+    maximum); False: it returns something smaller-able; None: not of a recognised shape"""
+    rets = [o for o in origins(t, {"l": 0, "p": []}, transparent=())]
+    locs = set()
+    for st in t.sites():
+        nd = st.node
+        if st.si is not None and nd["k"] == "assign" and nd["dst"]["l"] == 0 and not nd["dst"]["p"] and nd["rv"]["k"] == "use":
+            q = op_place(nd["rv"]["ops"][0])
+            if q is not None and not q["p"]:
+                locs.add(q["l"])
+    if len(locs) != 1:
+        if any(o.kind == "call" and callee_matches(o.data, r"^core::cmp::(Ord::max|max)$") and any(op_place(a) is not None and op_place(a)["l"] == k for a in o.site.node["args"]) for o in rets):
+            return True
+        return None
+    L = locs.pop()
+    init = False
+    for d in t.defs.get(L, []):
+        if d.si is None or d.node["k"] != "assign":
+            return None
+        rv = d.node["rv"]
+        if rv["k"] == "use" and op_place(rv["ops"][0]) is not None and op_place(rv["ops"][0])["l"] == k and not op_place(rv["ops"][0])["p"]:
+            init = True
+            continue
+        guarded = False
+        for c in conditions(t, d.bb):
+            if c.is_discr or not c.is_true():
+                continue
+            for oo in origins(t, c.place, transparent=()):
+                if oo.kind == "binop" and oo.data["op"] in ("Gt", "Ge", "Lt", "Le"):
+                    a0, a1 = oo.data["ops"]
+                    new_side, old_side = (a0, a1) if oo.data["op"] in ("Gt", "Ge") else (a1, a0)
+                    po = op_place(old_side)
+                    if po is not None and po["l"] == L:
+                        guarded = True
+        if not guarded:
+            return None
+    return True if init else None
+
+
 def rule_variable_count_monotone(ctx):
     """C15: the number of variables a back end knows never decreases"""
     prog = ctx.prog
@@ -1186,6 +1274,16 @@ def rule_variable_count_monotone(ctx):
                     for o in origins(b, rv["ops"][0], transparent=()):
                         if o.kind == "call" and callee_matches(o.data, r"^core::cmp::(Ord::max|max)$"):
                             ok = any(reads_field(a) for a in o.site.node["args"])
+                        elif o.kind == "call" and prog.body_for_callee(o.data, b) is not None and any(reads_field(a) for a in o.site.node["args"] if op_place(a) is not None):
+                            # a local helper given the old value: `max_var_id(self.n_vars, lits)` - judged by its shape
+                            t = prog.body_for_callee(o.data, b)
+                            k = [i + 1 for i, a in enumerate(o.site.node["args"]) if op_place(a) is not None and reads_field(a)][0]
+                            verdict = _returns_at_least_param(t, k)
+                            if verdict is None:
+                                undecided = True
+                                ok = True
+                            else:
+                                ok = verdict
                         elif o.kind == "binop" and o.data["op"] in ("Add", "AddWithOverflow"):
                             ok = any(reads_field(a) for a in o.data["ops"])
                         else:
@@ -1323,6 +1421,12 @@ def rule_n_vars_covers_reservations(ctx):
                     if fl and fl[-1] in int_fields and (nd["dst"]["l"] == 1 or y.kind == "closure"):
                         written.add(fl[-1])
         read = {f for f in self_fields_read(nb, {"l": 0, "p": []}) if f in int_fields}
+        # through private helpers of the same type whose result n_vars() returns
+        _, rcalls, _ = data_deps(nb, {"l": 0, "p": []})
+        for c in rcalls:
+            t = prog.body_for_callee(callee_of(c), nb) if callee_of(c) else None
+            if t is not None and t.impl and t.impl.get("self_adt") == owner and t is not nb:
+                read |= {f for f in self_fields_read(t, {"l": 0, "p": []}) if f in int_fields}
         # delegation: reserve forwards to a wrapped solver's reserve, n_vars to its n_vars
         res_deleg = any(callee_matches(callee_of(s), r"SatSolver::reserve$") for s in rb.calls())
         nv_deleg = any(callee_matches(callee_of(s), r"SatSolver::n_vars$") for s in nb.calls())
